@@ -118,3 +118,18 @@ pub mod chain {
         sc
     }
 }
+
+/// Geometry of a resource's statistics node as it was actually built.
+pub mod node {
+    /// (metric sample_count, metric interval_ms, ring sample_count, ring interval_ms)
+    pub fn geometry(res: &String) -> Option<(u32, u32, u32, u32)> {
+        crate::stat::get_resource_node(res).map(|n| {
+            (
+                n.sample_count,
+                n.interval_ms,
+                n.arr.sample_count(),
+                n.arr.interval_ms(),
+            )
+        })
+    }
+}
